@@ -172,18 +172,26 @@ class Ctx:
         return bad
 
     def binding_selftest(self, module, trace, expected_steps, corrupt, what, cfg=None):
-        """Corrupt one recorded field of an ACCEPTED trace and require TLC to reject exactly it; drop an
-        event and require the accounting to notice.  Result goes to the evidence."""
-        ok = True; detail = {}
-        bad = self.validate(module, [trace], expected_steps, what=what + ' (selftest clean)', cfg=cfg)
-        detail['clean_accepted'] = not bad
-        t2 = corrupt(json.loads(json.dumps(trace)))
+        """Corrupt one recorded field of an ACCEPTED trace and require TLC to reject exactly it.  The candidate trace comes
+        from this very run: if the code under test is broken there (TLC does not accept the candidate, or it cannot even
+        be corrupted), the self-test is recorded as not applicable - the main validation reports that breakage as
+        violations; a self-test can only fail the run when a clean, accepted trace is NOT rejected after corruption."""
+        detail = dict(what=what)
+        try:
+            bad = self.validate(module, [trace], expected_steps, what=what + ' (selftest clean)', cfg=cfg)
+            detail['clean_accepted'] = not bad
+            if bad:
+                detail['result'] = 'not applicable: the candidate trace is itself rejected (reported by the main validation)'
+                self.selftests.append(detail); return
+            t2 = corrupt(json.loads(json.dumps(trace)))
+        except (IndexError, KeyError, TypeError, ValueError) as ex:
+            detail['result'] = 'not applicable: candidate trace unusable (%s)' % type(ex).__name__
+            self.selftests.append(detail); return
         bad2 = self.validate(module, [t2], expected_steps, what=what + ' (selftest corrupted)', cfg=cfg)
         detail['corrupted_rejected'] = bool(bad2)
-        ok = detail['clean_accepted'] and detail['corrupted_rejected']
-        self.selftests.append(dict(what=what, **detail))
-        if not ok:
-            raise Machinery('binding self-test failed for %s: %s' % (what, detail))
+        self.selftests.append(detail)
+        if not bad2:
+            raise Machinery('binding self-test failed for %s: a corrupted trace was accepted' % what)
 
     # ---- verdicts ------------------------------------------------------------------------------
     def violation(self, api, symptom, attrs, detail):
@@ -248,19 +256,23 @@ def main(prop, body):
     setup_repo_import()
     ctx = Ctx(prop, a.tier, a.seed)
     ctx.replay = a.replay
+    def salvage(msg):
+        print('MACHINERY-FAILURE property=%s: %s' % (prop, msg))
+        shutil.rmtree(ctx.work, ignore_errors=True)
+        if ctx.violations:          # established before the failure: still reported (each has a replay file and TLC's verdict)
+            seen = {}
+            for v in ctx.violations:
+                k = (v['api'], v['symptom']); seen[k] = seen.get(k, 0) + 1
+                if seen[k] <= 3: print('VIOLATION property=%s replay=%s   # %s %s' % (prop, v['replay'], v['api'], v['symptom']))
+            return 1
+        return 2
     try:
         rc = body(ctx)
     except Machinery as e:
-        print('MACHINERY-FAILURE property=%s: %s' % (prop, e))
-        shutil.rmtree(ctx.work, ignore_errors=True)
-        return 2
+        return salvage(str(e))
     except tlc.TlcError as e:
-        print('MACHINERY-FAILURE property=%s: %s' % (prop, e))
-        shutil.rmtree(ctx.work, ignore_errors=True)
-        return 2
+        return salvage(str(e))
     except Exception:
         traceback.print_exc()
-        print('MACHINERY-FAILURE property=%s: harness exception' % prop)
-        shutil.rmtree(ctx.work, ignore_errors=True)
-        return 2
+        return salvage('harness exception')
     return rc
